@@ -82,6 +82,9 @@ func VerifC09_JacobianConcurrent() {
 	verifSched(verifParam("c09sched", 1))
 	verifSchedPreempt(verifParam("c09preempt", 1) == 1)
 	con := mat.NewDense(m, n, nil)
+	if verifChoose("dstUsed", 0, 1) == 1 {
+		con = mat.NewDense(m, n, verifFloats("old", m*n))
+	}
 	Jacobian(con, f, x, mk(true))
 	verifAssert(verifSchedDrain() == 0, "Jacobian(Concurrent) leaves no goroutine behind")
 	verifAssert(cnt.n == serCalls, "Jacobian(Concurrent) calls f as often as the serial code")
@@ -193,7 +196,11 @@ func VerifC09_HessianConcurrent() {
 	cnt.n = 0
 	verifSched(verifParam("c09hsched", 1))
 	verifSchedPreempt(verifParam("c09hpreempt", 0) == 1)
+	// the destination may hold arbitrary earlier contents (a reused matrix)
 	con := mat.NewSymDense(n, nil)
+	if verifChoose("dstUsed", 0, 1) == 1 {
+		con = mat.NewSymDense(n, verifFloats("old", n*n))
+	}
 	Hessian(con, f, x, mk(true))
 	verifAssert(verifSchedDrain() == 0, "Hessian(Concurrent) leaves no goroutine behind")
 	verifAssert(cnt.n == serCalls, "Hessian(Concurrent) calls f as often as the serial code")
